@@ -59,14 +59,14 @@ PROPS = {
         "rule": "problem texts: the repository's own test cases, generated valid texts (points, circles, arcs, all instruction forms), unsolvable and contradictory ones, and mutated / malformed ones; each is run through the release `ezpz` binary by path and by stdin, with and without --show-points; exit status, absence of panic and every stdout line are compared with the model's rendering of the library outcome computed in-process",
     },
     "C17": {
-        "modules": ["Ezpz.Proofs.Assembly", "Ezpz.Real.GaussNewton2", "Ezpz.Real.StopTests", "Ezpz.Properties.C06"],
+        "modules": ["Ezpz.Proofs.Assembly", "Ezpz.Proofs.Union", "Ezpz.Real.Union", "Ezpz.Real.GaussNewton2", "Ezpz.Real.StopTests", "Ezpz.Properties.C06"],
         "suites": [
             {"suite": "trace", "quick": (400, "planted,linear,prio,contra,pinned"), "thorough": (6000, "planted,linear,prio,contra,caps,conflict,pinned")},
         ],
         "oracles": [
             {"bin": "oracle_c17", "quick": ("{seed}", "300", "12"), "thorough": ("{seed}", "3000", "200")},
         ],
-        "partial": ["iterates_restrict / independence: proved are the ingredients - requests of groups sharing no variables give a block-diagonal Jacobian and a concatenated residual at every configuration (disjoint_block_structure, disjoint_no_coupling), a group's rows depend only on its own variables (group1_independent, group2_independent), the damped step of the union is exactly the pair of the groups' steps (step_of_blocks), the union's residual test passes iff every group's does and its step norm is the largest group norm (residual_test_of_union, step_norm_of_union), an Ok result has only finite values (C06.ok_implies_finite, which closes the NaN cross-talk path); equality of returned values is therefore exact for equal iteration counts; when one group converges earlier the union keeps stepping it (global stopping rules) and the difference is a convergence quantity, left to the oracle (<= 1e-5*scale)",
+        "partial": ["iterates_restrict is proved (Union.lean: newtonStep_union, newtonRun_union, newtonLoop_union_prefix, newtonLoop_union_converged, residual_test_union_iff, union_values_split; blockSolve_of_exact shows exact solvers satisfy the block hypothesis): while both groups keep iterating the union's values are the concatenation of the groups' values, the union returns at the residual test iff both groups do, and in every case the new values of a group are computed from that group's data only - only the decision when to stop is global (step_test_is_global: the relative step threshold uses the largest coordinate of the whole union). Also proved: requests of groups sharing no variables give a block-diagonal Jacobian and a concatenated residual at every configuration (disjoint_block_structure, disjoint_no_coupling), a group's rows depend only on its own variables (group1_independent, group2_independent), the damped step of the union is exactly the pair of the groups' steps (step_of_blocks), the union's residual test passes iff every group's does and its step norm is the largest group norm (residual_test_of_union, step_norm_of_union), an Ok result has only finite values (C06.ok_implies_finite, which closes the NaN cross-talk path); equality of returned values is therefore exact for equal iteration counts; when one group converges earlier the union keeps stepping it (global stopping rules) and the difference is a convergence quantity, left to the oracle (<= 1e-5*scale)",
                     "known finding F16: a group that is inconsistent and rank-deficient may converge alone and not in the union (or vice versa) because of rounding noise in the null space"],
         "assumptions": ["the LU answer is a parameter; over the reals it is characterised by IsStep"],
         "rule": "disjoint unions of 2..200 planted or linear sub-systems (each 1..12 constraints), requests interleaved at random, variable ids offset and shuffled; each group is first solved alone on the real code; the union must succeed with the same verdicts per group and the same values for every variable that is not under-constrained within 1e-5*scale",
@@ -86,7 +86,7 @@ PROPS = {
         "rule": "planted and linear systems with 0..15 constraints and 2..40 variables (incl. pinned, free-floating, rank-deficient but over-determined, free variables hidden behind equalities, no constraints): solve_analysis on the real code vs numpy null space of a finite-difference Jacobian at the returned point; cases without a clear gap in the singular values or participations are excluded by the oracle",
     },
     "C02": {
-        "modules": ["Ezpz.Properties.C02", "Ezpz.Real.GaussNewton", "Ezpz.Real.GaussNewton3"],
+        "modules": ["Ezpz.Properties.C02", "Ezpz.Real.GaussNewton", "Ezpz.Real.GaussNewton3", "Ezpz.Real.LocalContraction"],
         "suites": [
             {"suite": "kernels", "quick": (150,), "thorough": (3000,)},
             {"suite": "trace", "quick": (400, "planted,linear,prio"), "thorough": (6000, "planted,linear,prio,caps,disparity")},
@@ -95,7 +95,7 @@ PROPS = {
             {"bin": "oracle_c02", "quick": ("{seed}", "3000"), "thorough": ("{seed}", "200000")},
         ],
         "partial": ["convergence of the f64 iteration (success, iteration count <= 8, landing within 1.5x) is NOT proved: the theorems give the loop's anatomy (every round is residual test -> damped step of the Jacobian at the current point -> step test), existence/uniqueness/descent of the exact step, monotone approach on consistent linear systems, and the abstract contraction argument with the constant 1.5; that a given planted system satisfies the contraction hypothesis is left to the oracle on the real code",
-                    "gn_locally_contractive (from HasStrictFDerivAt of the stacked error map with injective derivative, the exact Gauss-Newton map contracts near x*) is not proved; rank-deficient ('not pinned down') systems would not be covered by it anyway",
+                    "gauss_newton_local_C02 (LocalContraction.lean) proves the whole chain for the exact iteration: error map differentiable at x* with Jacobian J, sigma_min(J)^2 >= c > lambda > 0, iteration operator continuous at x* => a ball around x* on which the error halves every round and no iterate is farther from the guess than 1.5x; continuity of x -> (J(x)^T J(x) + lambda)^-1 J(x)^T is a hypothesis there (not derived from continuity of J); rank-deficient ('not pinned down') systems are outside it: the defect operator is the identity on ker J (damped_defect_on_kernel), which is the regime of known finding F15",
                     "under-determined planted systems do land farther than 1.5x from the guess in about 0.02% of the cases on the real code (known finding F15)"],
         "assumptions": ["the LU answer is a parameter of the loop theorems; over the reals it is characterised by IsStep (existence and uniqueness proved), and held to it on recorded traces by the step certificate"],
         "rule": "planted-solution systems: random geometry X*, 1..15 constraints of any of the 23 kinds sharing entities with parameters derived from X*, anchored or free-floating, guesses X* + delta with |delta| <= 1e-2*scale; the oracle demands Ok, all satisfied, <= 8 iterations and |x_out - x0| <= 1.5|x0 - X*| + 1e-9, excluding (by the oracle) degenerate / ill-conditioned plants and branch switches inside the ball",
@@ -138,7 +138,7 @@ PROPS = {
         "assumptions": ["the LU solve is a parameter indexed by (level, iteration): the theorems hold for every such family"],
     },
     "C01": {
-        "modules": ["Ezpz.Properties.C01"],
+        "modules": ["Ezpz.Properties.C01", "Ezpz.Real.Meaning", "Ezpz.Real.MeaningArcs"],
         "suites": [
             {"suite": "kernels", "quick": (150,), "thorough": (3000,)},
             {"suite": "trace", "quick": (300, "planted,contra,prio,linear,conflict,disparity,collapsed,pinned"), "thorough": (5000, "planted,contra,prio,linear,caps,malformed,conflict,disparity,collapsed,pinned")},
@@ -147,7 +147,7 @@ PROPS = {
             {"bin": "oracle_c01", "quick": ("{seed}", "600"), "thorough": ("{seed}", "20000")},
         ],
         "partial": ["point_arc_verdict: for PointArcCoincident only 'on the circle' is guaranteed by a satisfied verdict; the arc's sweep is not checked within 0.05 of the circle (known finding F14)",
-                    "the geometric meaning of each error measure (residual_measures_<kind> over the reals) is not proved; it is checked by the independent geometric oracle on the real code only"],
+                    "the geometric meaning of each error measure is proved over the reals (measures_<kind>, satisfied_<kind>, zero_iff_<kind> for all 23 kinds, in coordinates, against a vocabulary written independently of the kernels); for the f64 code it is checked by the independent geometric oracle; where a kind's residual guard is active the measure is 0 and the verdict is 'satisfied' whatever the geometry (guarded_* / satisfied_of_guard_* theorems): those configurations are exempt in the oracle as degenerate"],
         "assumptions": ["EPSILON is the value extracted from lib.rs on this run"],
     },
     "C06": {
